@@ -1,10 +1,20 @@
 (* Extraction of the executable models for the correspondence driver.
    Only ExtrOcamlBasic is used (bool, option, unit, list, prod, sumbool mapped to OCaml's);
-   no Extract Constant; N/Z/positive/nat stay the extracted inductive datatypes. *)
+   no Extract Constant; N/Z/positive/nat stay the extracted inductive datatypes.
+   Every entry point gets a unique alias here so the flat OCaml file has stable names. *)
 Require Extraction.
 Require Import ExtrOcamlBasic.
 From Coq Require Import ZArith.
-From BE Require Import Model.Timer.
+From BE Require Model.Timer Model.Regs.
 Extraction Language OCaml.
+
+Definition timer_py_run := Timer.py_run.
+Definition timer_rs_run := Timer.rs_run.
+Definition timer_py_init := Timer.py_init.
+Definition timer_rs_init := Timer.rs_init.
+Definition regs_py_run := Regs.py_run Regs.py_init.
+Definition regs_rs_run := Regs.rs_run Regs.rs_init.
+
 Extraction "Extract/model.ml"
-  BinInt.Z.add Timer.py_run Timer.rs_run Timer.py_init Timer.rs_init.
+  BinInt.Z.add timer_py_run timer_rs_run timer_py_init timer_rs_init
+  regs_py_run regs_rs_run.
